@@ -1,2 +1,49 @@
-(* C07 -- theorem statements are being added; see DESIGN.md. *)
-From HS Require Import Lib.Base.
+(* C07 -- a short, long or failing entity stream never yields a complete-looking body. *)
+From HS Require Import Lib.Base Model.Body Proofs.BodyP Proofs.BodyRun.
+
+(* If the body for a full or single-range response reports a clean end without having reported
+   an error first, then the entity's stream delivered exactly the announced number of bytes and
+   never failed. Contrapositive: an early end, an error, a missing or an extra byte -- at any chunk
+   index, after any Pendings or empty chunks -- is reported as an error, never as a clean end. *)
+Theorem c07_clean_end_means_complete : forall n streams x rs bf,
+  run n streams (BExact x) = Ok (rs, bf) -> existsb is_perr rs = false -> existsb is_pend rs = true ->
+  stream_total (x_s x) = x_rem x /\ existsb ev_is_err (x_s x) = false.
+Proof. exact exact_clean_end_means_complete. Qed.
+
+(* the three fault kinds, one poll each *)
+Theorem c07_early_end_is_error : forall x, x_s x = [] -> x_rem x <> 0 ->
+  xl_poll x = ({| x_s := []; x_rem := 0 |}, PErr (ErrShort (x_rem x))).
+Proof. exact xl_short_is_error. Qed.
+Theorem c07_failure_is_error : forall x c t, x_s x = EvErr c :: t -> snd (xl_poll x) = PErr (ErrEntity c).
+Proof. exact xl_error_is_error. Qed.
+(* a chunk larger than what is still owed is not passed on *)
+Theorem c07_too_long_is_error : forall x d t, x_s x = EvData d :: t -> x_rem x < lenN d ->
+  snd (xl_poll x) = PErr (ErrLong (lenN d - x_rem x)).
+Proof. exact xl_long_is_error. Qed.
+Theorem c07_data_within_announced : forall x x' d, xl_poll x = (x', PData d) -> lenN d <= x_rem x.
+Proof. exact xl_data_within. Qed.
+
+(* every part of a multipart body is wrapped in the same check; its error is passed on at once,
+   fuses the body (no trailer follows: the next polls return None, see C20) *)
+Theorem c07_multipart_part_error : forall f streams m x x' e, m_cur m = Some x -> xl_poll x = (x', PErr e) ->
+  exists m', mp_poll (S f) streams m = Ok (m', PErr e) /\ m_rem m' = 0 /\ m_cur m' = None /\ m_state m' = mp_end_state m'.
+Proof. exact mp_forwards_part_error. Qed.
+
+(* nothing beyond the announced length is ever passed on, for any body and any stream *)
+Theorem c07_never_beyond_announced : forall n streams b rs bf, run n streams b = Ok (rs, bf) ->
+  delivered rs + body_hint bf <= body_hint b /\
+  (existsb is_perr rs = false -> delivered rs + body_hint bf = body_hint b).
+Proof. exact run_never_more. Qed.
+
+Example c07_instance :   (* one byte short at the second chunk: error, then fused *)
+  fst (match run 3 [] (BExact {| x_s := [EvData [1; 2]]; x_rem := 3 |}) with Ok p => p | Panic _ => ([], BOnce None) end)
+  = [PData [1; 2]; PErr (ErrShort 1); PEnd].
+Proof. reflexivity. Qed.
+
+Print Assumptions c07_clean_end_means_complete.
+Print Assumptions c07_early_end_is_error.
+Print Assumptions c07_failure_is_error.
+Print Assumptions c07_too_long_is_error.
+Print Assumptions c07_data_within_announced.
+Print Assumptions c07_multipart_part_error.
+Print Assumptions c07_never_beyond_announced.
